@@ -139,6 +139,21 @@ def check(ctx):
     queue_ends(ctx, "R12-e", "memory", "waiting_receivers", funcs=mem_funcs)
     queue_ends(ctx, "R12-e", "memory", "waiting_senders", funcs=mem_funcs)
 
+    # who may change the three queues, and how (anything else - a clear(), a pop in close() outside the last-close branch - loses or
+    # reorders items / strands waiters)
+    from .common import writer_table
+    S, R = "MemoryObjectSendStream", "MemoryObjectReceiveStream"
+    writer_table(ctx, "R12-e", "buffer", {f"{S}.send_nowait": {"call:append"}, f"{R}.receive_nowait": {"call:append", "call:popleft"}}, floor=3, modules=[MEM])
+    writer_table(ctx, "R12-e", "waiting_receivers", {f"{S}.send_nowait": {"call:popitem"}, f"{S}.close": {"call:clear"},
+                                                     f"{R}.receive": {"subscript", "call:pop"}}, floor=4, modules=[MEM])
+    writer_table(ctx, "R12-e", "waiting_senders", {f"{R}.receive_nowait": {"call:popitem"}, f"{R}.close": {"call:clear"},
+                                                   f"{S}.send": {"subscript", "call:pop"}}, floor=4, modules=[MEM])
+    for cls_, q, ctr in ((S, "waiting_receivers", "open_send_channels"), (R, "waiting_senders", "open_receive_channels")):
+        cl = ctx.fn(f"{cls_}.close", MEM)
+        for st_, _ in ctx.sites(cl, f"self._state.{q}.clear()"):
+            ctx.require_at("R12-e", cl, st_, [[f"0 == self._state.{ctr}"], [f"not self._state.{ctr}"]],
+                           instance=f"{q} is emptied only by the close of the last handle of the other side's peers", what="clear()")
+
     # ---- R12-f register / deregister pairing -------------------------------------------------------------------
     checkpoint_typestate(ctx, "R12-f", send, effects=[f"self.send_nowait($I)"],
                          regs=["self._state.waiting_senders[$E] = $I"],
